@@ -407,8 +407,7 @@ def compare(ctx, prog, mo, trace=None):
                 gap = sorted(seg[2]) != list(range(min(seg[2]), min(seg[2]) + len(seg[2])))
                 found.append((i, f"untouched-mode-moved:{'component' if op == 'comp' else 'processor'}:"
                                  f"{'gapped' if gap else 'contiguous'}-mapping",
-                              f"light of untouched mode(s) {bad} does not stay on them {what0}: the PERM realising the "
-                              f"mapping is not undone after a plain component", "untouched modes are unaffected",
+                              f"light of untouched mode(s) {bad} does not stay on them {what0}", "untouched modes are unaffected",
                               f"column {bad[0]} of the inserted segment = {np.round(W[:, bad[0]], 6).tolist()}"))
             if seg[5]:
                 ps_reqs.append((i, ("pair", seg[5][0], seg[5][1], seg[0], seg[1]), n, None, None))
@@ -432,8 +431,7 @@ def compare(ctx, prog, mo, trace=None):
                 ident = mps[4] == list(range(len(mps[4])))
                 found.append((i, f"postselect-reexpressed-wrongly:processor:min{'>0' if mps[3] else '=0'}-"
                                  f"{'identity' if ident else 'nontrivial'}-perm",
-                              f"the added processor's post-selection is carried over to the wrong modes after `{show_stmt(s)}` "
-                              f"(permuted with first=c_first, then shifted by c_first)",
+                              f"the added processor's post-selection is carried over to the wrong modes after `{show_stmt(s)}`",
                               f"conditions {sorted(dec_ps_conds(mps[2]))}",
                               f"conditions {sorted(dec_ps_conds(mps[1]))}; they differ on state {states(n)[k]}"))
         else:
@@ -803,7 +801,8 @@ def malformed_plug(rng, g, right):
 
 # ------------------------------------------------------------------ corpus
 def corpus():
-    """Design-time witnesses (DESIGN §9 rows 13, 15) and the name->int dictionary entry; always run first."""
+    """Witnesses of the repaired defects (DESIGN §9 rows 13, 15: fixes 7bb2f795, c0ab6b50; name->int dictionary entry:
+    2ff1ae25), kept as regression guards, and of the open one (port re-attached beyond the circuit); always run first."""
     from ..common import Ang
     bs = gen.Leaf("BS", 2, gen.bs_exact(0, Ang(3, 4, 5), [Ang(1, 0, 1)] * 4), (0, 2 * Ang(3, 4, 5).value, [0.0] * 4))
     ry = gen.Leaf("BS", 2, gen.bs_exact(1, Ang(5, 12, 13), [Ang(1, 0, 1)] * 4), (1, 2 * Ang(5, 12, 13).value, [0.0] * 4))
